@@ -4,8 +4,7 @@ set -u
 PATCH="$1"; TIER="$2"; shift 2
 cd /repo || exit 9
 if [ -n "$(git status --porcelain)" ]; then echo "/repo is dirty"; exit 9; fi
-git apply --3way "$PATCH" >/dev/null 2>&1 || git apply "$PATCH" || { echo "patch does not apply"; exit 9; }
-git reset -q
+git apply "$PATCH" || { echo "patch does not apply to /repo HEAD (re-base it first)"; exit 9; }
 trap 'git -C /repo checkout -- . ; git -C /repo clean -fdq -e target' EXIT
 cd /verif
 for p in "$@"; do
